@@ -25,6 +25,7 @@ K_NEGZERO_INT = 'int_storage_loses_neg_zero'
 K_FENV = 'fesetround_not_a_barrier_when_optimised'
 K_RTN0 = 'rtn_exact_zero_sum_is_plus_zero'
 K_F32LIT = 'f32_literal_operand_promotes_to_double'
+K_NEGSTEP = 'range_negative_step_loop_condition'
 
 
 # ---------------------------------------------------------------- program generator
@@ -324,7 +325,70 @@ def {name}(a0: fp.Real, a1: fp.Real):
     return P('nested-lists-slot-replacement', name, src, 'fp.FP64', ['f64', 'f64'])
 
 
-GENERATORS = [gen_float_modes, gen_widen, gen_int_exact, gen_control, gen_lists, gen_list_arg, gen_reduce, gen_sibling_modes, gen_nested]
+def gen_scale_pow2(rng, i):
+    """`2 ** n * v` / `v * 2 ** n` with mixed storage: a binary32 (or binary64) value scaled by a power of two with an
+    integer-format exponent under a binary64 context; products outside binary32's range and precision"""
+    vk = rng.choice(['f32', 'f32', 'f64'])
+    nk = rng.choice(['s8', 's8', 's16'])
+    name = f'sp{i}'
+    src = f'''@fp.fpy
+def {name}(a0: fp.Real, a1: fp.Real):
+    with fp.FP64:
+        t1 = (2 ** a1) * a0
+        t2 = a0 * (2 ** a1)
+        t3 = (2 ** a1) * (a0 * {rng.choice(['0.5', '2', '1.5'])})
+        t4 = t1 + a0
+    return t1, t2, t3, t4'''
+    p = P('scale-by-power-of-two-mixed-storage', name, src, 'fp.FP64', [vk, nk])
+    big = [3.0000000054977558e38, -3.0000000054977558e38, 3.4028234663852886e38, 1e-40, 1.401298464324817e-45, -1.1754943508222875e-38,
+           1.5, -0.75, 16777215.0, 0.0, -0.0]
+
+    def sampler(rng, s, vk=vk, nk=nk):
+        x = rng.choice(big) if rng.random() < 0.8 else rng.gauss(0, 1e30)
+        x = to_f32(x) if vk == 'f32' else x
+        n = rng.choice([1, 2, -1, -3, 30, 64, -64, 100, -100, 127, -128, 0, rng.randint(-60, 60)])
+        return [x, n]
+    p.sampler = sampler
+    return p
+
+
+def gen_strided_loops(rng, i):
+    """constant-bound strided loops whose C-style counter overshoots `stop` across an int8 / int16 / int32 boundary
+    (and controls: divisible strides, nothing near a boundary), both directions, named and `_` targets"""
+    loops = []
+    for B in rng.sample([127, 127, 32767, 32767, 2 ** 31 - 1, 255, 65535], 3):
+        n = rng.randint(2, 5)
+        step = rng.randint(B // (n + 1) + 1, B // n) if B // n > B // (n + 1) + 1 else B // n
+        start = rng.choice([0, 0, 1, 3])
+        last = start + (n - 1) * step
+        over = start + n * step
+        stop = rng.randint(last + 1, max(last + 1, min(B, over - 1)))
+        if rng.random() < 0.3:
+            start, stop, step = -start, -stop, -step
+        loops.append((start, stop, step))
+    loops.append(rng.choice([(0, 120, 40), (3, 100, 7), (0, 120, 50), (0, 32000, 10000), (10, -118, -50)]))
+    name = f'st{i}'
+    body = []
+    for k, (a, b, c) in enumerate(loops):
+        body.append(f'        s{k} = a0')
+        body.append(f'        for i{k} in range({a}, {b}, {c}):')
+        body.append(f'            s{k} = s{k} + i{k}')
+        body.append(f'        n{k} = 0')
+        body.append(f'        for _ in range({a}, {b}, {c}):')
+        body.append(f'            n{k} = n{k} + 1')
+    rets = ', '.join(f's{k}, n{k}' for k in range(len(loops)))
+    src = f'''@fp.fpy
+def {name}(a0: fp.Real):
+    with fp.FP64:
+''' + '\n'.join(body) + f'''
+    return {rets}'''
+    p = P('strided-constant-bound-loops', name, src, 'fp.FP64', ['f64'])
+    # result tokens (s_k, n_k) that come from a descending loop: known finding K_NEGSTEP (always emitted with `<`)
+    p.neg_positions = {j for k, (a, b, c) in enumerate(loops) if c < 0 and a > b for j in (2 * k, 2 * k + 1)}
+    return p
+
+
+GENERATORS = [gen_float_modes, gen_widen, gen_int_exact, gen_control, gen_lists, gen_list_arg, gen_reduce, gen_sibling_modes, gen_nested, gen_scale_pow2, gen_strided_loops]
 
 
 # ---------------------------------------------------------------- argument values
@@ -490,7 +554,7 @@ def run_differential(ck, rng, thorough):
     from .c14_programs import make_tracer
     import fpy2.ops as ops
     Tracer = make_tracer(fp)
-    nprog = 72 if thorough else 18
+    nprog = 88 if thorough else 22
     nvec = 24 if thorough else 8
     progs = []
     for i in range(nprog):
@@ -530,7 +594,9 @@ def run_differential(ck, rng, thorough):
         for s in range(nvec * 3):
             if len(samples) >= nvec:
                 break
-            if getattr(p, 'boundary', False):
+            if getattr(p, 'sampler', None) is not None:
+                args = p.sampler(rng, s)
+            elif getattr(p, 'boundary', False):
                 args = [sample_arg(rng, k, rng.random() < 0.75) for k in p.args]
                 if p.args[0] == 'f32' and s % 3 == 0:
                     args = [rng.choice([3.4028234663852886e38, -3.4028234663852886e38, 16777216.0, 16777217.0 - 1, 1.0, 0.1])
@@ -731,6 +797,11 @@ def run_differential(ck, rng, thorough):
                     # evaluation (what the emitted infix expression computes) differs from the binary32 one
                     elif K_F32LIT in flags and all(isinstance(w, float) for w, g in diffs):
                         key = K_F32LIT
+                    # known class 5: only the results of descending `range(a, b, -c)` loops differ: the emitter always
+                    # spells the loop condition `i < stop`, so a descending loop never runs
+                    elif getattr(p, 'neg_positions', None) and \
+                            all(j in p.neg_positions for j, (w, g) in enumerate(zip(want, got)) if not tok_eq(w, g)):
+                        key = K_NEGSTEP
                     # known class 2: the reference build (-O0 -frounding-math) of the same translation unit agrees with the
                     # interpreter on this input, this build does not, and the program switches the rounding mode: g++ evaluates
                     # floating-point operations without regard to the dynamic mode (compile-time folding of literal operands
